@@ -279,6 +279,36 @@ var Items = []Item{
 	{ID: "generic-type-method", Known: "c02GenericMethodCrash", Decls: "type Gt%N%[T any] struct {\n\tv T\n}\n\nfunc (g Gt%N%[T]) get() T {\n\treturn g.v\n}", Core: "o := Gt%N%[uint64]{v: 3}\n\tr = o.get()", NoCtx: true},
 	{ID: "init-func", Decls: "var initv%N% uint64\n\nfunc init() {\n\tinitv%N% = 3\n}", Core: "r = initv%N% + 1"},
 
+	// ---- interfaces: struct-to-interface conversion × the position of the converting call ----
+	{ID: "interface-call-assign", NoCtx: true, Decls: "type Sh%N% interface {\n\tArea() uint64\n\tScale(k uint64) uint64\n}\n\ntype Sq%N% struct {\n\tside uint64\n}\n\nfunc (s Sq%N%) Area() uint64 {\n\treturn s.side * s.side\n}\n\nfunc (s Sq%N%) Scale(k uint64) uint64 {\n\treturn s.side * k\n}\n\nfunc meas%N%(s Sh%N%) uint64 {\n\treturn s.Area() + s.Scale(2)\n}", Setup: "q := Sq%N%{side: 3}", Core: "r = meas%N%(q)"},
+	{ID: "interface-call-define", Decls: "type Sh%N% interface {\n\tArea() uint64\n\tScale(k uint64) uint64\n}\n\ntype Sq%N% struct {\n\tside uint64\n}\n\nfunc (s Sq%N%) Area() uint64 {\n\treturn s.side * s.side\n}\n\nfunc (s Sq%N%) Scale(k uint64) uint64 {\n\treturn s.side * k\n}\n\nfunc meas%N%(s Sh%N%) uint64 {\n\treturn s.Area() + s.Scale(2)\n}", Setup: "q := Sq%N%{side: 3}", Core: "a := meas%N%(q)\n\tr = a + 1", NoCtx: true},
+	{ID: "interface-call-in-condition", Known: "c02InterfaceConversion", Decls: "type Sh%N% interface {\n\tArea() uint64\n\tScale(k uint64) uint64\n}\n\ntype Sq%N% struct {\n\tside uint64\n}\n\nfunc (s Sq%N%) Area() uint64 {\n\treturn s.side * s.side\n}\n\nfunc (s Sq%N%) Scale(k uint64) uint64 {\n\treturn s.side * k\n}\n\nfunc meas%N%(s Sh%N%) uint64 {\n\treturn s.Area() + s.Scale(2)\n}", Setup: "q := Sq%N%{side: 3}", Core: "if meas%N%(q) > 10 {\n\t\tr = 1\n\t}"},
+	{ID: "interface-call-in-arith", Known: "c02InterfaceConversion", Decls: "type Sh%N% interface {\n\tArea() uint64\n\tScale(k uint64) uint64\n}\n\ntype Sq%N% struct {\n\tside uint64\n}\n\nfunc (s Sq%N%) Area() uint64 {\n\treturn s.side * s.side\n}\n\nfunc (s Sq%N%) Scale(k uint64) uint64 {\n\treturn s.side * k\n}\n\nfunc meas%N%(s Sh%N%) uint64 {\n\treturn s.Area() + s.Scale(2)\n}", Setup: "q := Sq%N%{side: 3}", Core: "r = 1 + meas%N%(q)*2"},
+	{ID: "interface-call-as-argument", Known: "c02InterfaceConversion", Decls: "type Sh%N% interface {\n\tArea() uint64\n\tScale(k uint64) uint64\n}\n\ntype Sq%N% struct {\n\tside uint64\n}\n\nfunc (s Sq%N%) Area() uint64 {\n\treturn s.side * s.side\n}\n\nfunc (s Sq%N%) Scale(k uint64) uint64 {\n\treturn s.side * k\n}\n\nfunc meas%N%(s Sh%N%) uint64 {\n\treturn s.Area() + s.Scale(2)\n}\n\nfunc twice%N%(x uint64) uint64 {\n\treturn x * 2\n}", Setup: "q := Sq%N%{side: 3}", Core: "r = twice%N%(meas%N%(q))"},
+	{ID: "interface-call-literal-arg", NoCtx: true, Decls: "type Sh%N% interface {\n\tArea() uint64\n\tScale(k uint64) uint64\n}\n\ntype Sq%N% struct {\n\tside uint64\n}\n\nfunc (s Sq%N%) Area() uint64 {\n\treturn s.side * s.side\n}\n\nfunc (s Sq%N%) Scale(k uint64) uint64 {\n\treturn s.side * k\n}\n\nfunc meas%N%(s Sh%N%) uint64 {\n\treturn s.Area() + s.Scale(2)\n}", Core: "r = meas%N%(Sq%N%{side: 4})"},
+	{ID: "interface-call-in-nested-block", Known: "c02InterfaceConversion", NoCtx: true, Decls: "type Sh%N% interface {\n\tArea() uint64\n\tScale(k uint64) uint64\n}\n\ntype Sq%N% struct {\n\tside uint64\n}\n\nfunc (s Sq%N%) Area() uint64 {\n\treturn s.side * s.side\n}\n\nfunc (s Sq%N%) Scale(k uint64) uint64 {\n\treturn s.side * k\n}\n\nfunc meas%N%(s Sh%N%) uint64 {\n\treturn s.Area() + s.Scale(2)\n}", Setup: "q := Sq%N%{side: 3}\n\ta := uint64(2)", Core: "if a > 1 {\n\t\tr = meas%N%(q)\n\t}"},
+	{ID: "interface-second-param", Known: "c02InterfaceConversion", Decls: "type Sh%N% interface {\n\tArea() uint64\n\tScale(k uint64) uint64\n}\n\ntype Sq%N% struct {\n\tside uint64\n}\n\nfunc (s Sq%N%) Area() uint64 {\n\treturn s.side * s.side\n}\n\nfunc (s Sq%N%) Scale(k uint64) uint64 {\n\treturn s.side * k\n}\n\nfunc meas%N%(s Sh%N%) uint64 {\n\treturn s.Area() + s.Scale(2)\n}\n\nfunc meas2%N%(k uint64, s Sh%N%) uint64 {\n\treturn s.Area() + k\n}", Setup: "q := Sq%N%{side: 3}", Core: "r = meas2%N%(5, q)"},
+	{ID: "interface-var-assignment", Known: "c02InterfaceConversion", Decls: "type Sh%N% interface {\n\tArea() uint64\n\tScale(k uint64) uint64\n}\n\ntype Sq%N% struct {\n\tside uint64\n}\n\nfunc (s Sq%N%) Area() uint64 {\n\treturn s.side * s.side\n}\n\nfunc (s Sq%N%) Scale(k uint64) uint64 {\n\treturn s.side * k\n}\n\nfunc meas%N%(s Sh%N%) uint64 {\n\treturn s.Area() + s.Scale(2)\n}", Setup: "q := Sq%N%{side: 3}", Core: "var s Sh%N% = q\n\tr = s.Area()", NoCtx: true},
+	{ID: "interface-returned", Known: "c02InterfaceConversion", NoCtx: true, Decls: "type Sh%N% interface {\n\tArea() uint64\n\tScale(k uint64) uint64\n}\n\ntype Sq%N% struct {\n\tside uint64\n}\n\nfunc (s Sq%N%) Area() uint64 {\n\treturn s.side * s.side\n}\n\nfunc (s Sq%N%) Scale(k uint64) uint64 {\n\treturn s.side * k\n}\n\nfunc meas%N%(s Sh%N%) uint64 {\n\treturn s.Area() + s.Scale(2)\n}\n\nfunc mk%N%() Sh%N% {\n\treturn Sq%N%{side: 3}\n}", Core: "r = mk%N%().Area()"},
+	{ID: "interface-pointer-receiver", Known: "c02InterfaceConversion", Decls: "type Cn%N% interface {\n\tInc() uint64\n}\n\ntype Ct%N% struct {\n\tn uint64\n}\n\nfunc (c *Ct%N%) Inc() uint64 {\n\tc.n = c.n + 1\n\treturn c.n\n}\n\nfunc bump%N%(c Cn%N%) uint64 {\n\treturn c.Inc() + c.Inc()\n}", Setup: "c := &Ct%N%{n: 1}", Core: "r = bump%N%(c) + c.n"},
+	{ID: "interface-two-implementations", Known: "c02InterfaceConversion", NoCtx: true, Decls: "type Sh%N% interface {\n\tArea() uint64\n\tScale(k uint64) uint64\n}\n\ntype Sq%N% struct {\n\tside uint64\n}\n\nfunc (s Sq%N%) Area() uint64 {\n\treturn s.side * s.side\n}\n\nfunc (s Sq%N%) Scale(k uint64) uint64 {\n\treturn s.side * k\n}\n\nfunc meas%N%(s Sh%N%) uint64 {\n\treturn s.Area() + s.Scale(2)\n}\n\ntype Rc%N% struct {\n\tw uint64\n\th uint64\n}\n\nfunc (s Rc%N%) Area() uint64 {\n\treturn s.w * s.h\n}\n\nfunc (s Rc%N%) Scale(k uint64) uint64 {\n\treturn s.w * k\n}", Setup: "q := Sq%N%{side: 3}\n\tw := Rc%N%{w: 2, h: 5}", Core: "r = meas%N%(q)*100 + meas%N%(w)"},
+	{ID: "interface-struct-field", Known: "c02InterfaceConversion", Decls: "type Sh%N% interface {\n\tArea() uint64\n\tScale(k uint64) uint64\n}\n\ntype Sq%N% struct {\n\tside uint64\n}\n\nfunc (s Sq%N%) Area() uint64 {\n\treturn s.side * s.side\n}\n\nfunc (s Sq%N%) Scale(k uint64) uint64 {\n\treturn s.side * k\n}\n\nfunc meas%N%(s Sh%N%) uint64 {\n\treturn s.Area() + s.Scale(2)\n}\n\ntype Hd%N% struct {\n\ts Sh%N%\n}", Setup: "q := Sq%N%{side: 3}", Core: "h := Hd%N%{s: q}\n\tr = h.s.Area()", NoCtx: true},
+	{ID: "unnamed-param", Decls: "func up%N%(uint64) uint64 {\n\treturn 1\n}", Core: "r = up%N%(3)"},
+	{ID: "local-var-group", Core: "var (\n\t\ta uint64 = 1\n\t\tb uint64 = 2\n\t)\n\tr = a + b", NoCtx: true},
+	{ID: "type-group", Decls: "type (\n\tTa%N% struct {\n\t\ta uint64\n\t}\n\tTb%N% struct {\n\t\tb uint64\n\t}\n)", Core: "r = Ta%N%{a: 1}.a + Tb%N%{b: 2}.b"},
+	{ID: "type-switch", Core: "var x interface{} = uint64(3)\n\tswitch x.(type) {\n\tcase uint64:\n\t\tr = 1\n\tdefault:\n\t\tr = 2\n\t}", NoCtx: true},
+	{ID: "select-stmt", Core: "c := make(chan uint64, 1)\n\tc <- 1\n\tselect {\n\tcase v := <-c:\n\t\tr = v\n\tdefault:\n\t\tr = 2\n\t}", NoCtx: true},
+	{ID: "switch-fallthrough", Setup: "a := uint64(1)", Core: "switch a {\n\tcase 1:\n\t\tr = 1\n\t\tfallthrough\n\tcase 2:\n\t\tr = r + 5\n\t}"},
+	{ID: "range-assign-existing-index", Setup: "s := make([]uint64, 3)", Core: "var i int\n\tfor i = range s {\n\t}\n\tr = uint64(i)", NoCtx: true},
+	{ID: "assign-explicit-deref-field", Decls: "type Df%N% struct {\n\ta uint64\n}", Setup: "p := &Df%N%{a: 1}", Core: "(*p).a = 3\n\tr = p.a"},
+	{ID: "assign-slice-in-field", Decls: "type Sf%N% struct {\n\ts []uint64\n}", Setup: "o := &Sf%N%{s: make([]uint64, 2)}", Core: "o.s[1] = 4\n\tr = o.s[1]"},
+	{ID: "assign-map-in-field", Decls: "type Mf2%N% struct {\n\tm map[uint64]uint64\n}", Setup: "o := &Mf2%N%{m: make(map[uint64]uint64)}", Core: "o.m[1] = 4\n\tr = o.m[1]"},
+	{ID: "assign-parenthesised", Core: "var x uint64 = 1\n\t(x) = 3\n\tr = x", NoCtx: true},
+	{ID: "assign-slice-element-field", Decls: "type Ef%N% struct {\n\ta uint64\n}", Setup: "s := make([]Ef%N%, 2)", Core: "s[1].a = 4\n\tr = s[1].a"},
+	{ID: "anonymous-struct-field-type", Decls: "type As%N% struct {\n\tin struct {\n\t\ta uint64\n\t}\n}", Core: "o := As%N%{}\n\tr = o.in.a + 1", NoCtx: true},
+	{ID: "inline-interface-param", Known: "c02InterfaceConversion", NoCtx: true, Decls: "func fi%N%(x interface {\n\tGet() uint64\n}) uint64 {\n\treturn x.Get()\n}\n\ntype Gi%N% struct {\n\ta uint64\n}\n\nfunc (g Gi%N%) Get() uint64 {\n\treturn g.a\n}", Core: "r = fi%N%(Gi%N%{a: 4})"},
+	{ID: "generic-type-variable", Decls: "type Gv2%N%[T any] struct {\n\tv T\n}", Core: "var o Gv2%N%[uint64]\n\tr = o.v + 1", NoCtx: true},
+
 	// ---- look-alikes: user definitions named like GooseLang library functions (captured by later emitted code) ----
 	{ID: "user-func-SliceGet", Decls: "func SliceGet(x uint64) uint64 {\n\treturn x + 100\n}", Setup: "s := make([]uint64, 2)\n\ts[1] = 5", Core: "r = s[1] + SliceGet(1)", Known: "c02LibraryNameCapture"},
 	{ID: "user-func-MapInsert", Decls: "func MapInsert(x uint64) uint64 {\n\treturn x + 100\n}", Setup: "m := make(map[uint64]uint64)", Core: "m[1] = 2\n\tr = m[1] + MapInsert(1)", Known: "c02LibraryNameCapture"},
